@@ -112,6 +112,16 @@ def table() -> dict[str, Prop]:
              "blockquote's save lists stay in lockstep with the lines they save (LOCK)",
              [CX.rule_ctx, CX.rule_fresh, CX.rule_lock, TK.rule_pair],
              not_decided="the concatenation law itself (that the blocks of A + blank + B are those of A followed by those of B)"))
+    from .rules import frame_rules as FR
+    reg(Prop("C17", "input normalisation is first and complete: normalize is the first core rule in the table and in every preset, "
+             "and the string it stores back has, on every path, no CR LF pair, no lone CR and no NUL left (NORM, with the regex "
+             "constants decided as languages); column frames: every tab stop outside the constructor is computed on an absolute "
+             "column, stores to bsCount keep it absolute, per-line marker flags in column arithmetic come from their own line (FRAME)",
+             [FR.rule_norm, FR.rule_frame],
+             assumptions=["the regex language facts are decided by handing the extracted constant patterns to the re engine on all "
+                          "strings over a three-letter alphabet up to length 5; no repository code runs"],
+             not_decided="full tab / space equivalence of structural whitespace (column arithmetic over runtime tables), and that no "
+                         "later rule re-introduces CR / NUL into content"))
     return props
 
 
@@ -123,6 +133,9 @@ NOT_APPLICABLE["C06"] = ("a metamorphic relation between the parses of two diffe
                          "frames) are claimed under C07 and C17 instead")
 
 TECHNIQUE = {
+    "C17": "forward dataflow of normalisation facts (no-CRLF / no-CR / no-NUL) through the normalize rule; regex-language "
+           "decision of the extracted constants; dimension (absolute vs relative column) check of all tab-stop arithmetic and "
+           "bsCount stores; per-iteration definite assignment of the marker flags",
     "C07": "value numbering with symbolic entry values (context fields and line-table cells restored at every return, "
            "co-inductive over the rule set); must-pass-through / dominance checks for the freshness of tight and parentType; "
            "sibling lockstep of the save lists",
